@@ -74,12 +74,12 @@ def check(chk: Check) -> None:
     R1 = chk.rule('C09.R1', 'child-evaluation sequences on every normally returning path of every node kind: and/or '
                             'evaluate op2 exactly when op1 is truthy/falsy and yield the deciding operand itself; '
                             'if-else evaluates cond then exactly one branch; every other child exactly once, in a fixed order',
-                  floor=25)
+                  floor=15)
     R2 = chk.rule('C09.R2', 'source order = evaluation order: in every template the grammar symbols sit in the fields '
-                            'in the order the node evaluates them; list-valued non-terminals preserve order', floor=60)
+                            'in the order the node evaluates them; list-valued non-terminals preserve order', floor=40)
     R3 = chk.rule('C09.R3', 'the tree built for a production does not depend on the content of its children: no grammar '
                             'action inspects a child subtree (other than the blank-statement test), so `x if c else y` is '
-                            'always a conditional node, `a and b` always a lazy node, ...', floor=60)
+                            'always a conditional node, `a and b` always a lazy node, ...', floor=40)
     chk.decided += ['laziness and result identity of and/or', 'cond-then-one-branch of if-else',
                     'exactly-once, fixed-order evaluation of every other child (all 13 node kinds, all operator specialisations)',
                     'placement of source positions into fields (all templates)']
